@@ -11,7 +11,12 @@ RULE = ('doubles by bit pattern: every power of ten 1e-323..1e308 and its neighb
         'trailing-zero patterns around 1e6 and 1e16, integers up to 2^64, subnormals, specials, seeded random bit patterns; '
         'non-trivial = finite d >= 1e6 (the rewriting branch) or a special; distinct by bits; plus every rendering site (text and '
         'OpenMetrics sample values, exemplar values with and without timestamp, histogram le labels in both bound orders) on a fixed '
-        'list of 21 doubles')
+        'list of 21 doubles, each site with one value per family, many values inside one family, and the quoted-name branch; '
+        '_created series of labelled children created at different times; quantile/le labels through both expositions and the '
+        'OpenMetrics parser; several histograms with different layouts and label sets in one process (bucket lines, per-bucket '
+        'exemplars, two scrapes); multiprocess merge of workers, label sets and restarts with DIFFERENT bucket layouts (6 fixed + '
+        'seeded random scenarios: different bounds, different bucket counts, shared and disjoint label sets, both file orders, '
+        'accumulated or not, collect()): every merged le = the spelling of that bound in the worker\'s own exposition, with its count')
 TRUSTED = ['CPython repr(float) (shortest round-trip repr; shape D{7,}.D+ for 1e6<=d<1e16 is re-validated on every generated case)',
            'CPython float(str) used by the direct oracle']
 ASSUMPTIONS = ['float(repr(x)) == x and float() depends only on the denoted decimal value (CPython facts; checked per case, not proved)']
@@ -28,9 +33,31 @@ def frombits(b):
 
 def run(ctx, rep, corpus):
     from .engine import generic_loop
-    for v in site_check():
-        rep.violate(dict(site=v.split(':')[0]), v)
-    rep.count('rendering_sites_checked', 5)
+    for v in site_check(ctx.seed, ctx.n(40, 400)):
+        rep.violate(dict(site=v.split(':')[0], seed=ctx.seed), v)
+    rep.count('rendering_sites_checked', N_SITES)
+    # correspondence at the rendering sites: every token found there is the model's go_string of that double
+    toks = sorted(set(SEEN_TOKENS))
+    del SEEN_TOKENS[:]
+    rep.count('site_tokens_held_against_model', len(toks))
+    merges = list(MERGES)
+    del MERGES[:]
+    rep.count('multiprocess_merges_held_against_model', len(merges))
+    if ctx.model is not None:
+        for case, acc, sets, got in merges:
+            mout = ctx.model.call('mple', acc, [(p, [(fclass(b), n) for b, n in bs]) for p, bs in sets])
+            mobs = [(d_str(p), [(d_str(le), int(n)) for le, n in out]) for p, out in mout]
+            if mobs != got:
+                rep.disagree(case, got, mobs)
+            else:
+                rep.traces += 1
+        for b, tok in toks:
+            mtok = model(ctx.model, b)
+            if mtok != tok:
+                rep.disagree(dict(site='rendered token', bits=b), tok, mtok)
+            else:
+                rep.traces += 1
+    rep.count('multiprocess_layout_scenarios', len(FIXED_SCENARIOS) + ctx.n(40, 400))
     generic_loop(sys.modules[__name__], ctx, rep, corpus)
     generic_loop(sys.modules[__name__], ctx, rep, cases(ctx))
 
@@ -97,13 +124,30 @@ def cases(ctx):
             yield b
 
 
+SEEN_TOKENS = []     # (double as bits, token) of every float found rendered at a site; run() also holds them against the model
+
+
+MERGES = []          # (case, accumulate, [(label set, [(bound, count)])], [(label set, [(le, value)])]) of every merge run
+
+
+def _chk(b, tok):
+    SEEN_TOKENS.append((b, tok))
+    return direct(b, tok)
+
+
 SITE_VALUES = [0.0, -0.0, 1.0, 2.5, 1e6, 2.5e6, 1e10, 1.5e10, 123456789012.0, 1e15, 9007199254740993.0, 1e16, 1e22,
                float('inf'), float('-inf'), float('nan'), 1234567.125, 5e-324, -1e6, -1.5e10, 0.1]
 
 
+def _find(pattern, text):
+    m = re.search(pattern, text, re.M)
+    return m.group(1) if m else None
+
+
 def site_tokens(vals):
-    """Every place the library renders a float, for the given doubles: returns list of (site, double, token)."""
-    import re as _re
+    """Every place the library renders a float, for the given doubles: returns list of (site, double, token).
+    Each site is exercised three ways: one value per family, MANY different values inside one family (one label set
+    each), and through the quoted-name (UTF-8) branch of the sample line."""
     from prometheus_client import CollectorRegistry, Histogram, core
     from prometheus_client.exposition import generate_latest
     from prometheus_client.openmetrics.exposition import generate_latest as om_latest
@@ -119,7 +163,25 @@ def site_tokens(vals):
         c.add_metric([], 1.0, exemplar=Exemplar({'a': 'b'}, d))
         c2 = core.CounterMetricFamily('d%d' % i, 'h')
         c2.add_metric([], 1.0, exemplar=Exemplar({'a': 'b'}, d, 1.5))
-        fams += [g, c, c2]
+        u = core.GaugeMetricFamily('u.g%d' % i, 'h')
+        u.add_metric([], d)
+        fams += [g, c, c2, u]
+    # the same sites with every value inside ONE family (a rendering made once per family would show here)
+    gl = core.GaugeMetricFamily('gl', 'h', labels=['i'])
+    ul = core.GaugeMetricFamily('u.l', 'h', labels=['i'])
+    cl = core.CounterMetricFamily('cl', 'h', labels=['i'])
+    dl = core.CounterMetricFamily('dl', 'h', labels=['i'])
+    for i, d in enumerate(vals):
+        gl.add_metric([str(i)], d)
+        ul.add_metric([str(i)], d)
+        cl.add_metric([str(i)], 1.0, exemplar=Exemplar({'a': 'b'}, d))
+        dl.add_metric([str(i)], 1.0, exemplar=Exemplar({'a': 'b'}, d, 1.5))
+    hx = core.HistogramMetricFamily('hx', 'h', labels=['p'])
+    for p in ('x', 'y'):
+        seq = vals if p == 'x' else list(reversed(vals))
+        hx.add_metric([p], [('%d.0' % i, float(i), Exemplar({'a': 'b'}, d)) for i, d in enumerate(seq)]
+                      + [('+Inf', float(len(seq)))], 1.0)
+    fams += [gl, ul, cl, dl, hx]
 
     class C:
         def collect(self):
@@ -128,14 +190,21 @@ def site_tokens(vals):
     text = generate_latest(reg).decode()
     om = om_latest(reg).decode()
     for i, d in enumerate(vals):
-        m = _re.search(r'^g%d (\S+)$' % i, text, _re.M)
-        out.append(('text-sample', d, m.group(1) if m else None))
-        m = _re.search(r'^g%d (\S+)$' % i, om, _re.M)
-        out.append(('om-sample', d, m.group(1) if m else None))
-        m = _re.search(r'^c%d_total 1\.0 # \{a="b"\} (\S+)$' % i, om, _re.M)
-        out.append(('om-exemplar', d, m.group(1) if m else None))
-        m = _re.search(r'^d%d_total 1\.0 # \{a="b"\} (\S+) 1\.5$' % i, om, _re.M)
-        out.append(('om-exemplar-ts', d, m.group(1) if m else None))
+        out.append(('text-sample', d, _find(r'^g%d (\S+)$' % i, text)))
+        out.append(('om-sample', d, _find(r'^g%d (\S+)$' % i, om)))
+        out.append(('om-exemplar', d, _find(r'^c%d_total 1\.0 # \{a="b"\} (\S+)$' % i, om)))
+        out.append(('om-exemplar-ts', d, _find(r'^d%d_total 1\.0 # \{a="b"\} (\S+) 1\.5$' % i, om)))
+        out.append(('text-sample-quoted-name', d, _find(r'^\{"u\.g%d"\} (\S+)$' % i, text)))
+        out.append(('om-sample-quoted-name', d, _find(r'^\{"u\.g%d"\} (\S+)$' % i, om)))
+        out.append(('text-sample-in-family', d, _find(r'^gl\{i="%d"\} (\S+)$' % i, text)))
+        out.append(('om-sample-in-family', d, _find(r'^gl\{i="%d"\} (\S+)$' % i, om)))
+        out.append(('text-sample-quoted-name-in-family', d, _find(r'^\{"u\.l", ?i="%d"\} (\S+)$' % i, text)))
+        out.append(('om-sample-quoted-name-in-family', d, _find(r'^\{"u\.l", ?i="%d"\} (\S+)$' % i, om)))
+        out.append(('om-exemplar-in-family', d, _find(r'^cl_total\{i="%d"\} 1\.0 # \{a="b"\} (\S+)$' % i, om)))
+        out.append(('om-exemplar-ts-in-family', d, _find(r'^dl_total\{i="%d"\} 1\.0 # \{a="b"\} (\S+) 1\.5$' % i, om)))
+        out.append(('om-bucket-exemplar', d, _find(r'^hx_bucket\{le="%d\.0",p="x"\} \S+ # \{a="b"\} (\S+)$' % i, om)))
+        out.append(('om-bucket-exemplar', d,
+                    _find(r'^hx_bucket\{le="%d\.0",p="y"\} \S+ # \{a="b"\} (\S+)$' % (len(vals) - 1 - i), om)))
     # histogram le labels through the instrumentation class, bounds in the given order
     finite = [d for d in vals if d == d and abs(d) != float('inf')]
     bounds = sorted(set(finite), key=lambda x: (x, math.copysign(1.0, x)))
@@ -153,10 +222,239 @@ def site_tokens(vals):
     return out
 
 
-def multiprocess_le_check():
+# ---------------------------------------------------------------------------------------------------------------
+# histograms with DIFFERENT bucket layouts: several in one process, several label sets, several workers, restarts
+# ---------------------------------------------------------------------------------------------------------------
+
+# no signed zero among the merge bounds: the collector keys the buckets of a label set by float EQUALITY, so bounds -0.0 and
+# 0.0 (one threshold) are one bucket there, labelled with whichever spelling was merged first (reported, not generated);
+# both zeros stay in the in-process stream (site_tokens, histogram-le in both orders)
+LAYOUT_POOL = [-2.5e6, -1e6, -1.0, 5e-324, 0.005, 0.1, 0.5, 1.0, 2.5, 10.0, 999999.0, 999999.5, 1e6, 1000001.0,
+               1234567.125, 2.5e6, 1e7, 123456789.0, 1e10, 1.5e10, 123456789012.0, 1e15, 9007199254740992.0,
+               9999999999999998.0, 1e16, 1.2e16, 1e22, 1e100]
+PATHS = ['/a', '/b', '/c']
+
+# a scenario = list of incarnations (pid, layout, {label value: [observations]}); a pid that comes back is a RESTART of that
+# worker (same .db file, possibly another layout after a deploy); labelled=False uses a histogram without label names
+FIXED_SCENARIOS = [
+    # two workers, one endpoint each, same number of buckets, top bucket raised by a deploy
+    (True, [(1, [0.1, 1.0, 1e6], {'/a': [0.05, 0.5, 5e5, 3e6]}), (2, [0.1, 1.0, 2.5e6], {'/b': [0.05, 0.5, 2e6, 3e6]})]),
+    # different NUMBER of buckets, longer layout first / shorter first (both merge orders are run)
+    (True, [(1, [1.0, 1e6, 1e7, 1e16], {'/a': [0.5, 2e6, 1e15, 1e17]}), (2, [2.5e6], {'/b': [1.0, 3e6]}),
+            (3, [0.1, 1e6], {'/c': [0.1, 0.2, 1e6]})]),
+    # one worker, two endpoints (same layout, by construction), another worker with another layout for one of them
+    (True, [(1, [0.5, 1e6, 1e10], {'/a': [0.1, 1e9], '/b': [7e5, 7e5, 2e10]}),
+            (2, [1.0, 1.5e10, 1e16, 1e22], {'/b': [0.7, 1.2e10, 1e30], '/c': [1e20]})]),
+    # restart of one worker (same pid, same file) with a new layout after a deploy
+    (True, [(7, [0.1, 1.0, 1e6], {'/a': [0.05, 2.0]}), (7, [0.1, 2.5e6, 1e7], {'/b': [1e6, 5e6], '/a': [0.01]}),
+            (8, [1e6], {'/c': [1.0]})]),
+    # no label names at all: the one label set () is shared by workers with different layouts
+    (False, [(1, [1.0, 1e6], {None: [0.5, 5.0, 1e7]}), (2, [1.0, 2.5e6, 1e16], {None: [2e6, 1e16, 2e16]})]),
+    # negative bounds, layouts disjoint
+    (True, [(1, [-1e6, -1.0, 0.1], {'/a': [-2e6, -5.0, 0.0, 1.0]}), (2, [-2.5e6, 1e15], {'/b': [-3e6, 5.0, 1e16]})]),
+]
+
+
+def random_scenario(rng):
+    labelled = rng.random() < 0.8
+    incs = []
+    for _ in range(rng.randrange(2, 5)):
+        pid = rng.randrange(1, 4)
+        layout = sorted(rng.sample(LAYOUT_POOL, rng.randrange(1, 7)))
+        paths = rng.sample(PATHS, rng.randrange(1, 3)) if labelled else [None]
+        obs = {}
+        for p in paths:
+            obs[p] = [rng.choice(LAYOUT_POOL) * rng.choice((0.5, 1.0, 1.0, 2.0)) for _ in range(rng.randrange(0, 6))]
+        incs.append((pid, layout, obs))
+    return labelled, incs
+
+
+def _bucket_of(layout, x):
+    for b in layout:
+        if x <= b:
+            return b
+    return float('inf')
+
+
+def _lkey(p):
+    return 'path=%s' % p if p is not None else '(no labels)'
+
+
+def layout_scenario_check(labelled, incs):
+    """Runs one scenario through real Histogram objects backed by values.MultiProcessValue (one class per incarnation,
+    its pid fixed), keeps each incarnation's OWN in-process exposition, then merges the directory with the
+    multiprocess collector in both file orders, with and without accumulation, and through collect()."""
+    import os
+    import shutil
+    import tempfile
+    from prometheus_client import CollectorRegistry, Histogram, values
+    from prometheus_client.mmap_dict import MmapedDict
+    from prometheus_client.multiprocess import MultiProcessCollector
+    import json as _json
+    bad = []
+    inf = float('inf')
+    d = tempfile.mkdtemp(prefix='c13mp')
+    old_env = os.environ.get('PROMETHEUS_MULTIPROC_DIR')
+    old_cls = values.ValueClass
+    opened = []
+    pid_uses = {}
+    for pid, _l, _o in incs:
+        pid_uses[pid] = pid_uses.get(pid, 0) + 1
+    try:
+        os.environ['PROMETHEUS_MULTIPROC_DIR'] = d
+        # per label set: non-cumulative count per bound (oracle, from the observations), the in-process spelling of
+        # every bound, and the in-process exposition of the incarnations that own it
+        want = {}
+        spelling = {}
+        owners = {}
+        for n, (pid, layout, obs) in enumerate(incs):
+            values.ValueClass = values.MultiProcessValue(lambda pid=pid: pid)
+            reg = CollectorRegistry()
+            h = Histogram('h', 'help', ['path'] if labelled else [], buckets=list(layout), registry=reg)
+            full = list(layout) + [inf]
+            for p, xs in obs.items():
+                child = h.labels(p) if labelled else h
+                opened.append(child._sum._file)
+                w = want.setdefault(p, {})
+                for b in full:
+                    w.setdefault(b, 0.0)
+                for x in xs:
+                    child.observe(x)
+                    w[_bucket_of(layout, x)] += 1.0
+            # the worker's own exposition
+            own = {}
+            for fam in reg.collect():
+                for s in fam.samples:
+                    if s.name == 'h_bucket':
+                        own.setdefault(s.labels.get('path'), []).append((s.labels['le'], s.value))
+            for p, xs in obs.items():
+                pairs = own.get(p, [])
+                if len(pairs) != len(full):
+                    bad.append('histogram-le: %s, layout %r: %d buckets exposed in-process for %d bounds'
+                               % (_lkey(p), layout, len(pairs), len(full)))
+                    continue
+                acc = 0.0
+                for b, (le, v) in zip(full, pairs):
+                    r = _chk(bits(b), le)
+                    if r:
+                        bad.append('histogram-le: %s, layout %r: %s' % (_lkey(p), layout, r))
+                    spelling.setdefault(p, {})[b] = le
+                    if pid_uses[pid] == 1:
+                        acc += sum(1.0 for x in xs if _bucket_of(layout, x) == b)
+                        if v != acc:
+                            bad.append('histogram-le: %s, layout %r: in-process bucket le=%r shows %r, the observations '
+                                       '%r give %r' % (_lkey(p), layout, le, v, xs, acc))
+                owners.setdefault(p, []).append((pid, pairs))
+        values.ValueClass = old_cls
+        files = sorted(os.path.join(d, f) for f in os.listdir(d) if f.endswith('.db'))
+        # the keys the workers wrote (metrics.py, _metric_init): every le in a file is the canonical spelling of a bound
+        for f in files:
+            for key, _v, _ts, _pos in MmapedDict.read_all_values_from_file(f):
+                _mn, name, labels, _help = _json.loads(key)
+                if name == 'h_bucket':
+                    p = labels.get('path')
+                    le = labels['le']
+                    try:
+                        b = float(le)
+                    except ValueError:
+                        bad.append('multiprocess-file-le: %s: le=%r in %s does not parse' % (_lkey(p), le, os.path.basename(f)))
+                        continue
+                    if b not in want.get(p, {}):
+                        bad.append('multiprocess-file-le: %s: le=%r in %s is not a bound of that label set'
+                                   % (_lkey(p), le, os.path.basename(f)))
+                    elif spelling[p][b] != le:
+                        bad.append('multiprocess-file-le: %s: bound %r is keyed le=%r in %s but exposed in-process as le=%r'
+                                   % (_lkey(p), b, le, os.path.basename(f), spelling[p][b]))
+
+        def check(tag, fams, accumulate):
+            got = {}
+            dup = []
+            seq = {}
+            for fam in fams:
+                for s in fam.samples:
+                    if s.name == 'h_bucket':
+                        g = got.setdefault(s.labels.get('path'), {})
+                        if s.labels['le'] in g:
+                            dup.append((s.labels.get('path'), s.labels['le']))
+                        g[s.labels['le']] = s.value
+                        seq.setdefault(s.labels.get('path') or '', []).append(
+                            (s.labels['le'], int(s.value) if s.value == int(s.value) else s.value))
+            # for the correspondence with model/LeLabels.v (run() holds it against the extracted mp_le_samples)
+            MERGES.append((dict(site='multiprocess merge', labelled=labelled, workers=repr(incs), how=tag), accumulate,
+                           sorted((p or '', [(b, int(want[p][b])) for b in sorted(want[p])]) for p in want),
+                           sorted(seq.items())))
+            for p, le in dup:
+                bad.append('multiprocess-le: %s: %s: le=%r exposed twice' % (tag, _lkey(p), le))
+            for p in sorted(want, key=repr):
+                exp = {}
+                acc = 0.0
+                for b in sorted(want[p]):
+                    acc = acc + want[p][b] if accumulate else want[p][b]
+                    exp[spelling[p][b]] = (b, acc)
+                g = got.get(p, {})
+                for le, (b, v) in exp.items():
+                    if le not in g:
+                        wrong = sorted(set(g) - set(exp))
+                        bad.append('multiprocess-le: %s: %s: bound %r (le=%r in the worker\'s own exposition, %s %r) is '
+                                   'missing from the merged exposition, which shows le in %r%s'
+                                   % (tag, _lkey(p), b, le, 'cumulative count' if accumulate else 'count', v, list(g),
+                                      '; %r belong(s) to no bound of this label set' % wrong if wrong else ''))
+                    elif g[le] != v:
+                        bad.append('multiprocess-le: %s: %s: le=%r (bound %r) carries %r, the %s of that bound is %r'
+                                   % (tag, _lkey(p), le, b, g[le], 'cumulative count' if accumulate else 'count', v))
+                for le in g:
+                    if le in exp:
+                        SEEN_TOKENS.append((bits(exp[le][0]), le))
+                        continue
+                    try:
+                        b = float(le)
+                    except ValueError:
+                        bad.append('multiprocess-le: %s: %s: exposed le=%r does not parse' % (tag, _lkey(p), le))
+                        continue
+                    if b in want[p]:
+                        bad.append('multiprocess-le: %s: %s: bound %r exposed as le=%r, the worker\'s own exposition '
+                                   'spells it %r' % (tag, _lkey(p), b, le, spelling[p][b]))
+                    else:
+                        bad.append('multiprocess-le: %s: %s: exposed le=%r parses to %r, which is not a bound of this '
+                                   'label set (bounds %r)' % (tag, _lkey(p), le, b, sorted(want[p])))
+                # a label set held by exactly one incarnation of a worker never restarted: the merged exposition IS
+                # the worker's own
+                if accumulate and len(owners[p]) == 1 and pid_uses[owners[p][0][0]] == 1:
+                    own_pairs = dict(owners[p][0][1])
+                    if g != own_pairs:
+                        bad.append('multiprocess-le: %s: %s: merged buckets %r differ from the only worker\'s own '
+                                   'exposition %r' % (tag, _lkey(p), g, own_pairs))
+            for p in got:
+                if p not in want:
+                    bad.append('multiprocess-le: %s: label set %s was never written' % (tag, _lkey(p)))
+
+        for tag, order in (('files in name order', files), ('files in reverse name order', list(reversed(files)))):
+            check(tag + ', accumulated', MultiProcessCollector.merge(list(order), accumulate=True), True)
+            check(tag + ', not accumulated', MultiProcessCollector.merge(list(order), accumulate=False), False)
+        check('collect()', MultiProcessCollector(CollectorRegistry(), path=d).collect(), True)
+    except Exception as e:
+        import traceback
+        bad.append('multiprocess-le: scenario raised %s: %s' % (type(e).__name__, traceback.format_exc()[-300:].replace('\n', ' | ')))
+    finally:
+        values.ValueClass = old_cls
+        if old_env is None:
+            os.environ.pop('PROMETHEUS_MULTIPROC_DIR', None)
+        else:
+            os.environ['PROMETHEUS_MULTIPROC_DIR'] = old_env
+        for f in opened:
+            try:
+                f.close()
+            except Exception:
+                pass
+        shutil.rmtree(d, ignore_errors=True)
+    return bad
+
+
+def multiprocess_spelling_check():
     """Bucket label strings must agree across processes, restarts and clients: .db files whose bucket keys spell one
     bound differently (written by another release or another client) are merged per BOUND by the multiprocess
-    collector and re-rendered canonically."""
+    collector and re-rendered canonically.  Two label sets with different bounds, so that a spelling kept from the
+    first one merged would show."""
     import shutil
     import tempfile
     from prometheus_client.mmap_dict import MmapedDict, mmap_key
@@ -164,32 +462,47 @@ def multiprocess_le_check():
     bad = []
     d = tempfile.mkdtemp(prefix='c13mp')
     try:
-        spellings = {1e6: ['1000000.0', '1e+06', '1e6'], 2.5e10: ['25000000000.0', '2.5e+10'], 1.0: ['1.0', '1'],
-                     float('inf'): ['+Inf', 'inf']}
+        spellings = {'x': {1e6: ['1000000.0', '1e+06', '1e6'], 2.5e10: ['25000000000.0', '2.5e+10'], 1.0: ['1.0', '1'],
+                           float('inf'): ['+Inf', 'inf']},
+                     'y': {1e7: ['1e7', '10000000.0', '1e+07'], 0.5: ['0.5', '5e-1', '.5'],
+                           1.5e10: ['15000000000', '1.5e+10', '1.5e10'], 1e16: ['1e+16', '1e16', '10000000000000000'],
+                           float('inf'): ['Inf', '+Inf', 'inf']}}
         files = []
         for pid in range(3):
             path = '%s/histogram_%d.db' % (d, pid)
             md = MmapedDict(path)
-            for bound, sp in spellings.items():
-                le = sp[pid % len(sp)]
-                md.write_value(mmap_key('h', 'h_bucket', ['le'], [le], 'help'), 1.0, 0.0)
-            md.write_value(mmap_key('h', 'h_sum', [], [], 'help'), 3.0, 0.0)
+            for p, sps in (sorted(spellings.items()) if pid != 1 else sorted(spellings.items(), reverse=True)):
+                for bound, sp in sps.items():
+                    le = sp[pid % len(sp)]
+                    md.write_value(mmap_key('h', 'h_bucket', ['p', 'le'], [p, le], 'help'), 1.0, 0.0)
+                md.write_value(mmap_key('h', 'h_sum', ['p'], [p], 'help'), 3.0, 0.0)
             md.close()
             files.append(path)
-        fams = MultiProcessCollector.merge(files, accumulate=True)
-        les = [s.labels['le'] for f in fams for s in f.samples if s.name == 'h_bucket']
-        seen = {}
-        for le in les:
-            b = float(le)
-            r = direct(bits(b), le)
-            if r:
-                bad.append('multiprocess-le: ' + r)
-            if b in seen:
-                bad.append('multiprocess-le: bound %r exposed twice, as le=%r and le=%r (files spelling one bound differently '
-                           'were not merged per bound)' % (b, seen[b], le))
-            seen[b] = le
-        if len(seen) != len(spellings):
-            bad.append('multiprocess-le: %d bounds exposed for %d written' % (len(seen), len(spellings)))
+        for order in (files, list(reversed(files))):
+            fams = MultiProcessCollector.merge(list(order), accumulate=True)
+            for p, sps in spellings.items():
+                pairs = [(s.labels['le'], s.value) for f in fams for s in f.samples
+                         if s.name == 'h_bucket' and s.labels.get('p') == p]
+                seen = {}
+                for le, v in pairs:
+                    b = float(le)
+                    r = _chk(bits(b), le)
+                    if r:
+                        bad.append('multiprocess-le: p=%s: %s' % (p, r))
+                    if b in seen:
+                        bad.append('multiprocess-le: p=%s: bound %r exposed twice, as le=%r and le=%r (files spelling one '
+                                   'bound differently were not merged per bound)' % (p, b, seen[b], le))
+                    seen[b] = le
+                    if b not in sps:
+                        bad.append('multiprocess-le: p=%s: exposed le=%r parses to %r, the bounds written for this label set '
+                                   '(in several spellings) are %r' % (p, le, b, sorted(sps)))
+                    else:
+                        cum = 3.0 * (sorted(sps).index(b) + 1)
+                        if v != cum:
+                            bad.append('multiprocess-le: p=%s: le=%r carries %r, the cumulative count of bound %r is %r'
+                                       % (p, le, v, b, cum))
+                if len(seen) != len(sps):
+                    bad.append('multiprocess-le: p=%s: %d bounds exposed for %d written' % (p, len(seen), len(sps)))
     except Exception as e:
         bad.append('multiprocess-le: collector raised %s' % type(e).__name__)
     finally:
@@ -197,17 +510,238 @@ def multiprocess_le_check():
     return bad
 
 
-def site_check():
-    """direct oracle over every rendering site; returns list of violation strings"""
-    bad = multiprocess_le_check()
-    for vals in (SITE_VALUES, list(reversed(SITE_VALUES))):
-        for site, d, tok in site_tokens(vals):
-            if tok is None:
-                bad.append('%s: rendering of %r not found in the output' % (site, d))
-                continue
-            r = direct(bits(d), tok)
+def multiprocess_le_check(rng=None, n_random=40):
+    import random
+    rng = rng or random.Random(13)
+    bad = []
+    for labelled, incs in FIXED_SCENARIOS + [random_scenario(rng) for _ in range(n_random)]:
+        for v in layout_scenario_check(labelled, incs):
+            bad.append('%s [scenario labelled=%r workers (pid, bounds, observations per label value)=%r]' % (v, labelled, incs))
+        if len(bad) > 40:
+            break
+    return bad + multiprocess_spelling_check()
+
+
+def inprocess_layout_check(rng):
+    """Several histograms with different layouts and several label sets in ONE process and one registry, observed with
+    exemplars; gauges with many children.  Checked on the collected samples and on both expositions, twice (values
+    change between the two scrapes)."""
+    from prometheus_client import CollectorRegistry, Gauge, Histogram
+    from prometheus_client.exposition import generate_latest
+    from prometheus_client.openmetrics.exposition import generate_latest as om_latest
+    bad = []
+    inf = float('inf')
+    reg = CollectorRegistry()
+    hs = []
+    for k in range(5):
+        layout = sorted(rng.sample(LAYOUT_POOL, rng.randrange(1, 8)))
+        if k == 0:
+            layout = [0.1, 1.0, 1e6]
+        if k == 1:
+            layout = [0.1, 1.0, 2.5e6]
+        labelled = k != 2
+        h = Histogram('h%d' % k, 'help', ['path'] if labelled else [], buckets=list(layout), registry=reg)
+        hs.append((k, layout, labelled, h, {}))
+    g = Gauge('gg', 'help', ['i'], registry=reg)
+    gvals = {}
+    for rnd in range(2):
+        for k, layout, labelled, h, seen in hs:
+            for p in (PATHS if labelled else [None]):
+                child = h.labels(p) if labelled else h
+                st = seen.setdefault(p, dict(counts={}, ex={}))
+                for _ in range(rng.randrange(0, 5)):
+                    x = rng.choice(LAYOUT_POOL) * rng.choice((0.5, 1.0, 2.0))
+                    child.observe(x, {'k': 'v'})
+                    b = _bucket_of(layout, x)
+                    st['counts'][b] = st['counts'].get(b, 0.0) + 1.0
+                    st['ex'][b] = x
+        vals = list(SITE_VALUES)
+        rng.shuffle(vals)
+        for i, d in enumerate(vals):
+            g.labels(str(i)).set(d)
+            gvals[i] = d
+        fams = list(reg.collect())
+        text = generate_latest(reg).decode()
+        om = om_latest(reg).decode()
+        for i, d in gvals.items():
+            for site, doc in (('text-gauge-child', text), ('om-gauge-child', om)):
+                tok = _find(r'^gg\{i="%d"\} (\S+)$' % i, doc)
+                r = 'rendering of %r not found in the output' % d if tok is None else _chk(bits(d), tok)
+                if r:
+                    bad.append('%s: scrape %d: %s' % (site, rnd, r))
+        for k, layout, labelled, h, seen in hs:
+            full = list(layout) + [inf]
+            fam = [f for f in fams if f.name == 'h%d' % k][0]
+            for p, st in seen.items():
+                pairs = [(s.labels['le'], s.value, s.exemplar) for s in fam.samples
+                         if s.name == 'h%d_bucket' % k and s.labels.get('path') == p]
+                if len(pairs) != len(full):
+                    bad.append('histogram-le: h%d %s layout %r: %d buckets for %d bounds' % (k, _lkey(p), layout, len(pairs), len(full)))
+                    continue
+                acc = 0.0
+                for b, (le, v, ex) in zip(full, pairs):
+                    acc += st['counts'].get(b, 0.0)
+                    r = _chk(bits(b), le)
+                    if r:
+                        bad.append('histogram-le: h%d %s layout %r: %s' % (k, _lkey(p), layout, r))
+                        continue
+                    if v != acc:
+                        bad.append('histogram-le: h%d %s layout %r: le=%r shows %r, cumulative count of bound %r is %r'
+                                   % (k, _lkey(p), layout, le, v, b, acc))
+                    lab = ('le="%s",path="%s"' % (re.escape(le), p)) if labelled else 'le="%s"' % re.escape(le)
+                    for site, doc in (('text-bucket-line', text), ('om-bucket-line', om)):
+                        tok = _find(r'^h%d_bucket\{%s\} (\S+)( #.*)?$' % (k, lab), doc)
+                        r = 'bucket line for le=%r not found' % le if tok is None else _chk(bits(acc), tok)
+                        if r:
+                            bad.append('%s: h%d %s: %s' % (site, k, _lkey(p), r))
+                    if b in st['ex']:
+                        tok = _find(r'^h%d_bucket\{%s\} \S+ # \{k="v"\} (\S+) \S+$' % (k, lab), om)
+                        r = ('exemplar of bucket le=%r not found' % le if tok is None else _chk(bits(st['ex'][b]), tok))
+                        if r:
+                            bad.append('om-bucket-exemplar: h%d %s: %s' % (k, _lkey(p), r))
+    return bad
+
+
+CREATED_VALUES = [1790000000.123456, 1.5e9, 1e9, 1234567.125, 999999.5, 1e10, 4102444800.0, 1727740800.5, 1790000000.0,
+                  1789999999.9999998, 0.0, 1e6, 2.5e6]
+
+
+def created_check(rng):
+    """_created series: every child has its own creation time; each is rendered by the same function in both formats."""
+    import time as _time
+    import types
+    from prometheus_client import CollectorRegistry, Counter, Histogram, Summary, metrics
+    from prometheus_client.exposition import generate_latest
+    from prometheus_client.openmetrics.exposition import generate_latest as om_latest
+    bad = []
+    pool = list(CREATED_VALUES)
+    rng.shuffle(pool)
+    clock = [0.0]
+    fake = types.SimpleNamespace(**{k: getattr(_time, k) for k in dir(_time) if not k.startswith('__')})
+    fake.time = lambda: clock[0]
+    old_time, old_flag = metrics.time, metrics._use_created
+    try:
+        metrics.time = fake
+        metrics._use_created = True
+        reg = CollectorRegistry()
+        expect = []
+        i = 0
+        for cls, nm, kw in ((Counter, 'cc', {}), (Summary, 'ss', {}), (Histogram, 'hh', dict(buckets=[1.0, 1e6]))):
+            m = cls(nm, 'help', ['l'], registry=reg, **kw)
+            for lv in ('a', 'b', 'c'):
+                clock[0] = pool[i % len(pool)]
+                i += 1
+                m.labels(lv)
+                expect.append((nm, lv, clock[0]))
+            clock[0] = pool[i % len(pool)]
+            i += 1
+            cls(nm + '0', 'help', registry=reg, **kw)
+            expect.append((nm + '0', None, clock[0]))
+        clock[0] = 5.0
+        text = generate_latest(reg).decode()
+        om = om_latest(reg).decode()
+        for nm, lv, d in expect:
+            lab = r'\{l="%s"\}' % lv if lv is not None else ''
+            for site, doc in (('text-created', text), ('om-created', om)):
+                tok = _find(r'^%s_created%s (\S+)$' % (nm, lab), doc)
+                r = '_created of %s%s (%r) not found in the output' % (nm, lab, d) if tok is None else _chk(bits(d), tok)
+                if r:
+                    bad.append('%s: %s%s: %s' % (site, nm, lab.replace('\\', ''), r))
+    except Exception as e:
+        bad.append('created: raised %s: %s' % (type(e).__name__, e))
+    finally:
+        metrics.time = old_time
+        metrics._use_created = old_flag
+    return bad
+
+
+QUANTILES = [0.0, 0.5, 0.9, 0.95, 0.99, 0.999, 1.0, 0.1, 1e-06, 0.30000000000000004]
+LE_LABELS = [0.005, 1.0, 999999.5, 1e6, 2.5e6, 1.5e10, 123456789012.0, 1e15, 1e16, 1e22]
+
+
+def label_passthrough_check():
+    """quantile and le labels spelled by floatToGoString go through both expositions unchanged and the OpenMetrics
+    parser hands the same strings back (it compares them with floatToGoString for canonicity)."""
+    from prometheus_client import CollectorRegistry, core
+    from prometheus_client.exposition import generate_latest
+    from prometheus_client.openmetrics.exposition import generate_latest as om_latest
+    from prometheus_client.openmetrics.parser import text_string_to_metric_families
+    from prometheus_client.utils import floatToGoString
+    bad = []
+    try:
+        s = core.Metric('sq', 'help', 'summary')
+        for i, q in enumerate(QUANTILES):
+            s.add_sample('sq', {'quantile': floatToGoString(q)}, float(i))
+        h = core.HistogramMetricFamily('hq', 'help', labels=['p'])
+        for p, les in (('x', LE_LABELS), ('y', LE_LABELS[1::2])):
+            h.add_metric([p], [(floatToGoString(b), float(i)) for i, b in enumerate(les)] + [('+Inf', float(len(les)))], 1.0)
+
+        class C:
+            def collect(self):
+                return [s, h]
+        reg = CollectorRegistry(auto_describe=False)
+        reg.register(C())
+        text = generate_latest(reg).decode()
+        om = om_latest(reg).decode()
+        for i, q in enumerate(QUANTILES):
+            for site, doc in (('text-quantile-label', text), ('om-quantile-label', om)):
+                tok = _find(r'^sq\{quantile="([^"]*)"\} %s$' % re.escape(repr(float(i))), doc)
+                r = 'quantile %r not found in the output' % q if tok is None else _chk(bits(q), tok)
+                if r:
+                    bad.append('%s: %s' % (site, r))
+        back = {}
+        for fam in text_string_to_metric_families(om):
+            for smp in fam.samples:
+                if smp.name == 'sq':
+                    back[('q', smp.value)] = smp.labels['quantile']
+                if smp.name == 'hq_bucket':
+                    back[(smp.labels['p'], smp.value)] = smp.labels['le']
+        for i, q in enumerate(QUANTILES):
+            tok = back.get(('q', float(i)))
+            r = 'quantile %r lost by the OpenMetrics parser' % q if tok is None else _chk(bits(q), tok)
             if r:
-                bad.append('%s: %s' % (site, r))
+                bad.append('om-parsed-quantile-label: %s' % r)
+        for p, les in (('x', LE_LABELS), ('y', LE_LABELS[1::2])):
+            for i, b in enumerate(les):
+                tok = back.get((p, float(i)))
+                r = 'le %r of p=%s lost by the OpenMetrics parser' % (b, p) if tok is None else _chk(bits(b), tok)
+                if r:
+                    bad.append('om-parsed-le-label: p=%s: %s' % (p, r))
+    except Exception as e:
+        bad.append('label-passthrough: raised %s: %s' % (type(e).__name__, e))
+    return bad
+
+
+N_SITES = 32
+
+
+def site_check(seed=0, n_random=40):
+    """direct oracle over every rendering site; returns list of violation strings"""
+    import random
+    rng = random.Random(seed * 7919 + 13)
+    def guarded(site, fn, *args):
+        try:
+            return fn(*args)
+        except Exception as e:      # rendering a float never raises
+            import traceback
+            return ['%s: raised %s (%s)' % (site, type(e).__name__, traceback.format_exc()[-300:].replace('\n', ' | '))]
+
+    def tokens():
+        out = []
+        for vals in (SITE_VALUES, list(reversed(SITE_VALUES))):
+            for site, d, tok in site_tokens(vals):
+                if tok is None:
+                    out.append('%s: rendering of %r not found in the output' % (site, d))
+                    continue
+                r = _chk(bits(d), tok)
+                if r:
+                    out.append('%s: %s' % (site, r))
+        return out
+    bad = guarded('multiprocess-le', multiprocess_le_check, rng, n_random)
+    bad += guarded('histogram-le', inprocess_layout_check, rng)
+    bad += guarded('created', created_check, rng)
+    bad += guarded('label-passthrough', label_passthrough_check)
+    bad += guarded('site-tokens', tokens)
     return bad
 
 
@@ -304,7 +838,7 @@ def neighbours(b):
 def replay(ctx, rep, case):
     from .engine import process
     if isinstance(case, dict):
-        for v in site_check():
-            rep.violate(dict(site=v.split(':')[0]), v)
+        for v in site_check(case.get('seed', ctx.seed), ctx.n(40, 400)):
+            rep.violate(dict(site=v.split(':')[0], seed=case.get('seed', ctx.seed)), v)
     else:
         process(sys.modules[__name__], ctx, rep, case)
